@@ -40,6 +40,7 @@ OPS = {"=": PathSearchMethods.EQUALS, "^": PathSearchMethods.STARTS_WITH,
 # YAML spellings of the haystack pool (each loaded through the strict loader)
 HAY_YAML = [
     "null", "true", "false", "0", "1", "-1", "1000", "1.0", "2.5", "-0.5",
+    "1.5e+3", ".nan", ".inf", "-.inf",
     '"1"', '"1.0"', '"01"', '"1000"', '"-1"', '"a"', '"A"', '"ab"', '"b"',
     '""', '" "', '"true"', '"True"', '"TRUE"', '"false"', '"yes"', '"null"',
     '"None"', '"~"', '"[1]"', '"{}"', '"{[1]: 2}"', '"1e3"', '"0x10"',
@@ -58,6 +59,7 @@ NEEDLES = [
     ".", "a|b", "2020", "é", "1+", "...", "-0.5",
     "1.10", "1.50", "3.00", "1.1.5", "5.",
     "9007199254740992", "9007199254740993", "-9007199254740992",
+    "2.50", "1.00", "-0.50", "1000.0", "1e3", "2.5e0",
 ]
 _HAYS = None
 
